@@ -119,7 +119,7 @@ def compile_texts(texts, omp):
 @st.composite
 def cases(draw):
     prog = draw(gd.decl_programs(PROFILE))
-    nsteps = draw(st.integers(0, 5))
+    nsteps = draw(st.integers(0, 8))
     steps = []
     for _ in range(nsteps):
         name = draw(st.sampled_from(NAMES))
